@@ -23,11 +23,12 @@ CHECKS = {
         text="TLA+ lattice specifications (HexLattice: cube-coordinate geometric reference + line-by-line transcription of armi's ring/position "
              "arithmetic with theorems that they agree; CartLattice; GridGeom/Nested/Reduce for coordinates, nesting, reduce/rebuild, changePitch) are "
              "checked exhaustively by TLC over all cells within N rings, both orientations; every explored edge/case is then executed on real armi grids "
-             "and compared field by field with the values TLC computed.",
-        design="3/C07 and 9",
+             "and compared field by field with the values TLC computed. Thorough tier: the closed forms (HexCore.tla, the operators TLC and the replay evaluate) "
+             "are proved equal to the counter-clockwise walk for EVERY ring by an Apalache inductive invariant (HexSpiral).",
+        design="3/C07, 9 and 9.2c",
         note="Trusted: TLC, projection of real grids to lattice integers (snap tolerance on coordinates). Bounded: hex N=9 rings quick / 24 thorough, "
              "Cartesian radius 6/14, nesting depth 3. Cartesian (ring,pos)->indices is a documented NotImplementedError (modelled as refusal).",
-        technique="TLA+ lattice specs checked exhaustively with TLC; one implementation test per TLC state/edge on real grids",
+        technique="TLA+ lattice specs checked exhaustively with TLC; one implementation test per TLC state/edge on real grids; Apalache inductive invariant for the ring/position closed forms (thorough)",
     ),
     "C08": dict(
         text="HexSymmetry/CartSymmetry/BlockRotation specifications define symmetric images, domains, symmetry lines and rotations geometrically with exact "
@@ -42,7 +43,7 @@ CHECKS = {
         text="CcccRecord (record state machine: open, rw* field steps, close, read back) and CcccFormats (per-format record grammar as a function of the header, "
              "PRESENT-IF table, byte-count laws) are checked by TLC; every enumerated field sequence and every (format, header) case is written by the real "
              "writers, parsed by an independent frame parser, compared with the record sequence TLC computed, read back, re-written and byte-compared, in "
-             "binary and ASCII; recorded writer histories are validated by TLC.",
+             "binary and ASCII; recorded writer histories are validated by TLC. All real-code stages run in forked workers: a native crash is a verdict.",
         design="3/C09 and 9",
         note="Trusted: TLC, the independent frame parsers, the container builder driven by the spec's manifest. Counts 1..3 per dimension; meaning of numbers not "
              "modelled. Five known findings (ASCII field widths, DLAYXS ASCII read, ISOTXS/GAMISO sub-blocking) are listed in known_findings.json.",
@@ -75,8 +76,8 @@ CHECKS = {
              "move counters) with one action per fuel-management operation (swap, cascade, discharge swap, add, remove/purge, refusals); inventory, one-per-location, "
              "lookup truthfulness, content and block-order clauses are invariants / action properties checked exhaustively by TLC; every explored edge is executed "
              "through a real FuelHandler / Core / SpentFuelPool on generated hex-full, hex-third and Cartesian cores; random 50-event shuffle histories are "
-             "validated by TLC.",
-        design="3/C14 and 9",
+             "validated by TLC. Extra stage zones: Zones.tla (Zone/Zones API with refusals, findZoneItIsIn after fuel moves) checked by TLC and replayed on the real Core.zones.",
+        design="3/C14, 9 and 9.2c",
         note="Trusted: TLC, the generated small cores (harness/gen_core.py), exact-float block fingerprints. Depth-bounded (4/5) because move counters grow. "
              "Bare moveTo to an empty cell and Core.add without any locator are outside the operation alphabet.",
         technique="TLA+ fuel-shuffling spec + TLC; edge replay through a real FuelHandler/Core/SFP; TLC trace validation of random shuffle histories",
@@ -188,8 +189,9 @@ CHECKS = {
              "OrbitClosure, CopiesRotatedIntoPlace, UniqueNames, LookupsTruthful, TimesThree (totals as exact rational linear forms over the originals), "
              "RestoreReturnsPrevious, EdgesRoundTrip are invariants checked by TLC over all 255 loading patterns of a 3-ring third core. The emitted graph is walked "
              "through the real ThirdCoreHexToFullCoreChanger / EdgeAssemblyChanger on generated cores (cells, rotation, symmetry factor, masses, parameter scales, all "
-             "lookups, totals at rtol 1e-9), and random call histories on 5-ring patterns are validated by TLC.",
-        design="3/C13 and 9",
+             "lookups, totals at rtol 1e-9), and random call histories on 5-ring patterns are validated by TLC. Extra stage geomconv: GeometryConversion.tla "
+             "(HexToRZThetaConverter: partition, volume/atom conservation, mesh contiguity) checked by TLC and replayed into the real converter.",
+        design="3/C13, 9 and 9.2c",
         note="Trusted: TLC, harness/gen_core.py cores, C08's geometric rotation operators. Interpretation I2: convert and removeEdgeAssemblies purge the 120-degree line for good, "
              "so round trips return the edge-free model (the literal reading is refuted by TLC and reported as a note).",
         technique="TLA+ symmetry-conversion spec (exact rational totals) + TLC; graph walk through the real geometry changers; TLC trace validation of call histories",
